@@ -12,7 +12,7 @@ import io
 import os
 import random
 
-from vh.core import MachineryError
+from vh.core import MachineryError, other_surroundings
 
 HEADER = 'lon,lat,mag,time_string,depth,catalog_id,event_id'
 
@@ -156,8 +156,21 @@ def run_case(chk, case, style, api, path):
     status = 'done'
     err = None
     try:
-        for c in load_with(api, path):
-            got.append(observe_catalog(c))
+        # the file is named by a str, by a pathlib.Path, or relative to the working directory of a program that changed its
+        # process-wide settings (decimal context, numpy print options)
+        how = (len(case['file']) + len(style)) % 4
+        if how == 1 and api != 'classmethod':
+            import pathlib
+            for c in load_with(api, pathlib.Path(path)):
+                got.append(observe_catalog(c))
+        elif how == 2:
+            import os
+            with other_surroundings(cwd=os.path.dirname(path)):
+                for c in load_with(api, os.path.basename(path)):
+                    got.append(observe_catalog(c))
+        else:
+            for c in load_with(api, path):
+                got.append(observe_catalog(c))
     except ValueError as ex:
         status = 'rejected'
         err = str(ex)
